@@ -1,7 +1,7 @@
 #!/bin/sh
 # intake.sh <PID> <A|B> : verify a sub-agent's mutant in its scratch worktree and copy it to /verif/seeded/<PID>-<x>/
 set -u
-P=$1; X=$2; WT=/tmp/wt-$P; OUT=$WT/out; DST=/verif/seeded/$P-$X
+P=$1; X=$2; WT=${WTPREFIX:-/tmp/wt}-$P; OUT=$WT/out; DST=/verif/seeded/$P-${SUFFIX:-}$X
 cd $WT || exit 2
 git checkout -q -- icontract
 echo "--- demo on clean tree"; PYTHONPATH=$WT /venv/bin/python $OUT/demo$X.py > /tmp/intake.clean 2>&1; C=$?; tail -2 /tmp/intake.clean
